@@ -53,7 +53,13 @@ impl fmt::Debug for Expr {
             Expr::DependOn(a, b) => write!(f, "depend_on({a:?},{b:?})"),
             Expr::Bind(l, arms) => write!(f, "bind({l:?} => {arms:?})"),
             Expr::Cut(c, e) => write!(f, "cutoff[{c:?}]({e:?})"),
-            Expr::Writer(k, ws, e) => write!(f, "writer[f{k},{ws:?}]({e:?})"),
+            Expr::Writer(k, ws, e) => {
+                write!(f, "writer[f{k},[")?;
+                for (t, op, v, thr) in ws {
+                    write!(f, "(#{t}.{op:?}({v:?}) when n%3>={}{})", thr % 10, if *thr >= 10 { ", then drops its Var handle" } else { "" })?;
+                }
+                write!(f, "]]({e:?})")
+            }
             Expr::Discard(a, b) => write!(f, "{{let _ = {a:?}; {b:?}}}"),
         }
     }
@@ -314,7 +320,8 @@ pub fn gen_expr(ch: &mut Choices, cx: &mut GenCx, depth: u32) -> Expr {
                         cx.vars[ch.choose(cx.vars.len())],
                         WRITE_OPS[ch.choose(5)],
                         gen_val(ch),
-                        ch.choose(3) as i32,
+                        // threshold; +10 = the closure gives up its Var handle after this write
+                        ch.choose(3) as i32 + if crate::choice::dv() >= 2 && ch.flag(1, 4) { 10 } else { 0 },
                     )
                 })
                 .collect();
